@@ -58,19 +58,91 @@ def _opref(o):
         return ("c", o["val"])
     if o.get("k") in ("copy", "move") and not o["place"].get("p"):
         return ("l", o["place"]["l"])
+    if o.get("k") in ("copy", "move"):
+        return _placeref(o["place"])
     return None
+
+
+def _placeref(pl):
+    """("p", local, (proj, ..)) for places built from deref / field / downcast projections only."""
+    pr = []
+    for e in pl.get("p") or []:
+        if e["k"] == "deref":
+            pr.append(("deref",))
+        elif e["k"] == "field":
+            pr.append(("field", e["i"]))
+        elif e["k"] == "downcast":
+            pr.append(("downcast", e["vi"]))
+        else:
+            return None
+    if not pr:
+        return ("l", pl["l"])
+    return ("p", pl["l"], tuple(pr))
+
+
+def _ref_locals(r):
+    if r is None:
+        return []
+    if r[0] in ("l", "p"):
+        return [r[1]]
+    return []
+
+
+def _val_of(r, e, depth=0):
+    """Abstract value of an operand/place reference under environment e (None = unknown).
+    Values: int | ("V", variant index, discriminant value, (field values..)) | ("R", local)."""
+    if r is None:
+        return None
+    if r[0] == "c":
+        return r[1]
+    v = e.get(r[1])
+    if r[0] == "l":
+        return v
+    for pr in r[2]:
+        if v is None:
+            return None
+        if pr[0] == "deref":
+            if isinstance(v, tuple) and v[0] == "R" and depth < 4:
+                v = e.get(v[1])
+            else:
+                return None
+        elif pr[0] == "field":
+            if isinstance(v, tuple) and v[0] == "V" and pr[1] < len(v[3]):
+                v = v[3][pr[1]]
+            else:
+                return None
+        elif pr[0] == "downcast":
+            if not (isinstance(v, tuple) and v[0] == "V" and v[1] == pr[1]):
+                return None
+    return v
 
 
 def _eval_eff(v, e):
     def val(r):
-        if r is None:
-            return None
-        return r[1] if r[0] == "c" else e.get(r[1])
+        x = _val_of(r, e)
+        return x if isinstance(x, int) else None
     k = v[0]
     if k == "copyof":
         return e.get(v[1])
     if k == "copyval":
         return val(v[1])
+    if k == "useplace":
+        return _val_of(v[1], e)
+    if k == "refof":
+        return ("R", v[1])
+    if k == "agg":
+        return ("V", v[1], v[2], tuple(_val_of(r, e) for r in v[3]))
+    if k == "discr":
+        x = _val_of(v[1], e)
+        return x[2] if isinstance(x, tuple) and x[0] == "V" else None
+    if k == "branch":
+        # <Result/Option as Try>::branch: Ok(v)/Some(v) -> Continue(v) ; Err(e)/None -> Break(residual)
+        x = _val_of(v[2], e)
+        if not (isinstance(x, tuple) and x[0] == "V"):
+            return None
+        if v[1] == "Result":
+            return ("V", 0, 0, x[3]) if x[1] == 0 else ("V", 1, 1, (x,))
+        return ("V", 0, 0, x[3]) if x[1] == 1 else ("V", 1, 1, (x,))
     if k == "not":
         x = val(v[1])
         return None if x is None else (0 if x else 1)
@@ -207,13 +279,25 @@ class Body:
         borrowed = set()
         for b in range(self.nblocks):
             for s in self.blocks[b]["stmts"]:
-                if s["k"] == "assign" and s["rv"]["k"] in ("ref", "rawptr") and s["rv"].get("bk", "mut") == "mut" and not s["rv"]["place"].get("p"):
-                    borrowed.add(s["rv"]["place"]["l"])
+                if s["k"] == "assign" and s["rv"]["k"] in ("ref", "rawptr") and s["rv"].get("bk", "mut") == "mut":
+                    pr = s["rv"]["place"].get("p") or []
+                    # a mutable borrow of the local or of a part of it (not through a pointer it merely holds)
+                    if not any(e["k"] == "deref" for e in pr):
+                        borrowed.add(s["rv"]["place"]["l"])
+        discr_of = getattr(self, "discr_of", None) or (lambda adt, vi: vi)
         ca = []
         for b in range(self.nblocks):
             eff = []
             for s in self.blocks[b]["stmts"]:
-                if s["k"] != "assign" or s["place"].get("p"):
+                if s["k"] == "setdiscr":
+                    eff.append((s["place"]["l"], None))
+                    continue
+                if s["k"] != "assign":
+                    continue
+                if s["place"].get("p"):
+                    # a write into a part of a local (not through a pointer): the whole local becomes unknown
+                    if not any(e["k"] == "deref" for e in s["place"]["p"]):
+                        eff.append((s["place"]["l"], None))
                     continue
                 l = s["place"]["l"]
                 rv = s["rv"]
@@ -221,6 +305,17 @@ class Body:
                     eff.append((l, rv["op"]["val"]))
                 elif rv["k"] == "use" and rv["op"].get("k") in ("copy", "move") and not rv["op"]["place"].get("p") and l not in borrowed:
                     eff.append((l, ("copyof", rv["op"]["place"]["l"])))
+                elif rv["k"] == "use" and rv["op"].get("k") in ("copy", "move") and l not in borrowed and _placeref(rv["op"]["place"]) is not None:
+                    eff.append((l, ("useplace", _placeref(rv["op"]["place"]))))
+                elif rv["k"] == "copyforderef" and l not in borrowed and _placeref(rv["place"]) is not None:
+                    eff.append((l, ("useplace", _placeref(rv["place"]))))
+                elif rv["k"] == "ref" and rv.get("bk") != "mut" and not rv["place"].get("p") and l not in borrowed and rv["place"]["l"] not in borrowed:
+                    eff.append((l, ("refof", rv["place"]["l"])))
+                elif rv["k"] == "aggregate" and rv.get("agg") in ("adt", "tuple") and l not in borrowed:
+                    vi = rv.get("vi", 0) or 0
+                    eff.append((l, ("agg", vi, discr_of(rv.get("adt"), vi), tuple(_opref(o) for o in rv["ops"]))))
+                elif rv["k"] == "discriminant" and l not in borrowed and _placeref(rv["place"]) is not None:
+                    eff.append((l, ("discr", _placeref(rv["place"]))))
                 elif rv["k"] == "binop" and l not in borrowed:
                     eff.append((l, ("binop", rv["op"], _opref(rv["a"]), _opref(rv["b"]))))
                 elif rv["k"] == "unop" and rv["op"] == "Not" and l not in borrowed:
@@ -230,13 +325,24 @@ class Body:
                 else:
                     eff.append((l, None))
             t = self.blocks[b]["term"]
-            if t["k"] == "call" and not t["dest"].get("p"):
-                eff.append((t["dest"]["l"], None))
+            if t["k"] == "call":
+                dl = t["dest"]["l"]
+                f = t["func"]
+                fp = f["fn"]["path"] if f.get("k") == "const" and "fn" in f else ""
+                if fp.endswith("ops::Try::branch") and not t["dest"].get("p") and dl not in borrowed and len(t["args"]) == 1:
+                    aty = (t.get("argtys") or [""])[0]
+                    kind = "Result" if aty.startswith(("std::result::Result<", "core::result::Result<")) else ("Option" if aty.startswith(("std::option::Option<", "core::option::Option<")) else None)
+                    eff.append((dl, ("branch", kind, _opref(t["args"][0])) if kind else None, "term"))
+                elif not t["dest"].get("p") or not any(e["k"] == "deref" for e in t["dest"]["p"]):
+                    eff.append((dl, None, "term"))
+            elif t["k"] == "drop" and not t["place"].get("p"):
+                pass
             ca.append(eff)
         self._ca = ca
         return ca
 
-    def reachable_cp(self, start=0, env=None, without_edge=None, without_blocks=(), limit=4000, assume=None, switch_eval=None):
+    def reachable_cp(self, start=0, env=None, without_edge=None, without_blocks=(), limit=4000, assume=None, switch_eval=None,
+                     observe=None):
         """Path-sensitive reachability: constants assigned to whole locals are propagated along each path and a
         switch on a local with a known constant follows only the matching edge (drop flags, `matches!` temporaries)."""
         ca = self._const_assigns()
@@ -259,7 +365,13 @@ class Body:
                 for al, av in assume.items():
                     if al <= self.arg_count:
                         e[al] = av
-            for (l, v) in ca[b]:
+            t = self.blocks[b]["term"]
+            effs = ca[b]
+            nstm = len(effs) - (1 if (t["k"] == "call" and effs and effs[-1][0] == t["dest"]["l"] and len(effs[-1]) == 3) else 0)
+            for idx, eff in enumerate(effs):
+                if idx == nstm and observe is not None:
+                    observe(b, e)
+                l, v = eff[0], eff[1]
                 if isinstance(v, tuple):
                     v = _eval_eff(v, e)
                 if assume and l in assume:
@@ -268,10 +380,13 @@ class Body:
                     e.pop(l, None)
                 else:
                     e[l] = v
-            t = self.blocks[b]["term"]
+            if observe is not None and nstm == len(effs):
+                observe(b, e)
             nxt = self.succs(b)
             if t["k"] == "switch" and t["op"].get("k") in ("copy", "move") and not t["op"]["place"].get("p"):
                 v = e.get(t["op"]["place"]["l"])
+                if not isinstance(v, int):
+                    v = None
                 if v is None and switch_eval is not None:
                     v = switch_eval(b)
                 if v is not None:
@@ -290,7 +405,7 @@ class Body:
                     nxt = [tgt]
             # only keep knowledge about locals that are switched on somewhere (bounds the state space)
             keep = self._switch_locals()
-            if assume:
+            if assume or observe is not None:
                 et = tuple(sorted(e.items()))
             else:
                 et = tuple(sorted((k, v) for k, v in e.items() if k in keep))
@@ -310,13 +425,32 @@ class Body:
             # and locals copied into them
             changed = True
             ca = self._const_assigns()
+
+            def mentioned(v):
+                k = v[0]
+                if k in ("copyof", "refof"):
+                    return [v[1]]
+                if k in ("copyval", "not"):
+                    return _ref_locals(v[1])
+                if k in ("useplace", "discr"):
+                    return _ref_locals(v[1])
+                if k == "binop":
+                    return _ref_locals(v[2]) + _ref_locals(v[3])
+                if k == "agg":
+                    return [x for r in v[3] for x in _ref_locals(r)]
+                if k == "branch":
+                    return _ref_locals(v[2])
+                return []
             while changed:
                 changed = False
                 for eff in ca:
-                    for (l, v) in eff:
-                        if l in sw and isinstance(v, tuple) and v[1] not in sw:
-                            sw.add(v[1])
-                            changed = True
+                    for x in eff:
+                        l, v = x[0], x[1]
+                        if l in sw and isinstance(v, tuple):
+                            for m in mentioned(v):
+                                if m not in sw:
+                                    sw.add(m)
+                                    changed = True
             self._swl = sw
         return self._swl
 
@@ -329,14 +463,27 @@ class Body:
         """Every path entry -> b uses CFG edge `edge` (exact: b unreachable without it)."""
         if b not in self.live_blocks():
             return True
-        return b not in self.reachable(0, without_edge=edge)
+        if b not in self.reachable(0, without_edge=edge):
+            return True
+        # paths that exist in the CFG but contradict the constants / enum variants established along them
+        # (`helper()?` after the helper's Err return, drop flags, `matches!` temporaries) are not executions
+        return b not in self._reach_cp_without_edge(edge)
+
+    def _reach_cp_without_edge(self, edge):
+        if not hasattr(self, "_rcwe"):
+            self._rcwe = {}
+        if edge not in self._rcwe:
+            self._rcwe[edge] = self.reachable_cp(0, without_edge=edge)
+        return self._rcwe[edge]
 
     def block_dominates(self, a, b):
         if a == b:
             return True
         if b not in self.live_blocks():
             return True
-        return b not in self.reachable(0, without_blocks=(a,))
+        if b not in self.reachable(0, without_blocks=(a,)):
+            return True
+        return b not in self.reachable_cp(0, without_blocks=(a,))
 
     def reaches(self, a, b, without_blocks=()):
         """Is there a path a ->+ b (at least one edge)?"""
@@ -459,12 +606,94 @@ class Body:
         return self.locals[l]["ty"]
 
 
+def _renumber(x, loff, top=True):
+    """Deep copy of a MIR JSON fragment with every local index shifted by loff."""
+    if isinstance(x, dict):
+        out = {}
+        for k, v in x.items():
+            if k == "l" and isinstance(v, int) and (("k" not in x) or x.get("k") == "index"):
+                out[k] = v + loff
+            else:
+                out[k] = _renumber(v, loff, False)
+        return out
+    if isinstance(x, list):
+        return [_renumber(v, loff, False) for v in x]
+    return x
+
+
+def _retarget(term, boff):
+    k = term["k"]
+    if k in ("goto", "call", "assert", "drop") and term.get("t") is not None:
+        term["t"] += boff
+    elif k == "switch":
+        term["targets"] = [[v, t + boff] for v, t in term["targets"]]
+        term["otherwise"] += boff
+    return term
+
+
+def inline_calls(prog, body, should_inline, maxdepth=3, _stack=()):
+    """CFG-level inlining: a new Body (same path) in which every live call to a crate function selected by
+    `should_inline(path)` is replaced by the callee's blocks (locals and blocks renumbered, parameters assigned from
+    the argument operands, each `return` replaced by `dest = move _0; goto <continuation>`). Recursion is cut by the
+    call stack; callees are themselves inlined first (up to maxdepth). Returns `body` itself when nothing changes."""
+    import copy
+    targets = []
+    for blk, t, c in body.calls():
+        if c is None or not c.local or c.kind != "Item" or t["k"] != "call":
+            continue
+        cb = prog.bodies.get(c.path)
+        if cb is None or cb.kind == "Closure" or c.path == body.path or c.path in _stack or not should_inline(c.path):
+            continue
+        if len(t["args"]) != cb.arg_count:
+            continue
+        targets.append((blk, c.path))
+    if not targets:
+        return body
+    mir = copy.deepcopy(body.mir)
+    blocks = mir["blocks"]
+    locs = mir["locals"]
+    inlined = []
+    for blk, cpath in targets:
+        cb = prog.bodies[cpath]
+        if maxdepth > 1:
+            cb = inline_calls(prog, cb, should_inline, maxdepth - 1, _stack + (body.path,))
+        loff = len(locs)
+        boff = len(blocks)
+        locs.extend(copy.deepcopy(cb.mir["locals"]))
+        t = blocks[blk]["term"]
+        cont = t.get("t")
+        tspan = blocks[blk]["tspan"]
+        for cblk in cb.mir["blocks"]:
+            nb = _renumber(cblk, loff)
+            term = nb["term"]
+            if term["k"] == "return":
+                nb["stmts"].append({"k": "assign", "place": copy.deepcopy(t["dest"]), "rv": {"k": "use", "op": {"k": "move", "place": {"l": loff}}}, "span": tspan})
+                nb["term"] = {"k": "goto", "t": cont} if cont is not None else {"k": "unreachable"}
+            else:
+                _retarget(term, boff)
+            blocks.append(nb)
+        for i, a in enumerate(t["args"]):
+            blocks[blk]["stmts"].append({"k": "assign", "place": {"l": loff + i + 1}, "rv": {"k": "use", "op": copy.deepcopy(a)}, "span": tspan})
+        blocks[blk]["term"] = {"k": "goto", "t": boff}
+        inlined.append(cpath)
+    j = dict(body.j)
+    if "mir" in j:
+        j["mir"] = mir
+    else:
+        j = dict(mir)
+    nbdy = Body(body.path, j)
+    nbdy.discr_of = prog._discr_of
+    nbdy.inlined = sorted(set(inlined + list(getattr(body, "inlined", []))))
+    return nbdy
+
+
 class Program:
     def __init__(self, facts):
         self.facts = facts
         self.bodies = {}
         for p, j in facts["bodies"].items():
             self.bodies[p] = Body(p, j)
+            self.bodies[p].discr_of = self._discr_of
         self.promoted = {}
         for p, lst in facts.get("promoted", {}).items():
             self.promoted[p] = [Body("%s::promoted[%d]" % (p, i), m) for i, m in enumerate(lst)]
@@ -487,8 +716,32 @@ class Program:
                 self.roots[r["root"]] = r["node"]
         self._reach = {}
 
+    def _discr_of(self, adt, vi):
+        """Discriminant value of variant index vi of an ADT (explicit discriminants of crate enums; else the index)."""
+        a = self.facts["adts"].get(adt) if adt else None
+        if a:
+            for v in a["variants"]:
+                if v.get("vi") == vi and v.get("discr") is not None:
+                    try:
+                        return int(v["discr"])
+                    except (TypeError, ValueError):
+                        return vi
+        return vi
+
     def body(self, path):
         return self.bodies.get(path)
+
+    def inlined_body(self, path, should_inline, key=None):
+        """Body of `path` with the selected private callees inlined at CFG level (cached per key)."""
+        b = self.bodies.get(path)
+        if b is None:
+            return None
+        if not hasattr(self, "_inl"):
+            self._inl = {}
+        k = (path, key)
+        if k not in self._inl:
+            self._inl[k] = inline_calls(self, b, should_inline)
+        return self._inl[k]
 
     def impl_fn(self, self_ty, trait_ref_substr, method):
         """Body of `method` in the impl of a trait (trait_ref contains the substring) for self_ty, wherever it is defined."""
